@@ -272,7 +272,7 @@ impl<'a> V<'a> {
                 }
                 Sel::Spread { name, dirs, .. } => {
                     self.directives(dirs, "FRAGMENT_SPREAD", ctx);
-                    let Some(ExecDef::Frag { cond, sel: fsel, .. }) = self.frags.get(&name.s).copied() else {
+                    let Some(ExecDef::Frag { cond, sel: fsel, dirs: fdirs, .. }) = self.frags.get(&name.s).copied() else {
                         self.out.push(f("spread.defined", name.s.clone()));
                         continue;
                     };
@@ -284,6 +284,11 @@ impl<'a> V<'a> {
                         if !stack.contains(&name.s) && self.sch.is_composite(&cond.s) {
                             stack.push(name.s.clone());
                             let cond_s = cond.s.clone();
+                            // variables in the directives of the fragment definition belong to the
+                            // operations that reach it (5.8.3 / 5.8.4 are per operation)
+                            if ctx.is_some() {
+                                self.directives(fdirs, "FRAGMENT_DEFINITION", ctx);
+                            }
                             self.selset_inner(fsel, &cond_s, ctx, stack, Some(used));
                             stack.pop();
                         }
